@@ -129,7 +129,8 @@ namespace glm
 			return quat_identity<T,Q>();
 		}
 
-		if(cosTheta < static_cast<T>(-1) + epsilon<T>())
+		// dot() of two exactly opposite normalized vectors is only within a few epsilon of -1
+		if(cosTheta < static_cast<T>(-1) + static_cast<T>(4) * epsilon<T>())
 		{
 			// special case when vectors in opposite directions :
 			// there is no "ideal" rotation axis
